@@ -147,6 +147,67 @@ pub fn run(w: &World, seed: u64, rng: &mut Rng, n_states: usize, sample: usize, 
             }
         }
         trace.emit(json!({"ev":"X","st":st,"xs":xs}));
+        // afterlife of the state: queries must keep following the replica when writes go on after the first queries -
+        // a write that is NOT followed by an observation, then a call that commits by another road than a query
+        // (a listing, the hash list, a point lookup) or nothing, then queries and point lookups again
+        let mut st_prev = st.clone();
+        for round in 0..3u64 {
+            let now = 100 + round;
+            iroh_docs::verif::set_clock(now);
+            let a = 1 + rng.below(g.n_auth as usize) as i64;
+            let k = pick_key(rng, g.n_keys);
+            let del = rng.chance(1, 4);
+            let (res, e) = {
+                let store = run.store.as_mut().unwrap();
+                let mut rep = iroh_docs::verif::replica(store, run.info.as_mut().unwrap());
+                let r = rt.block_on(async {
+                    if del { rep.delete_prefix(&k, w.author(a)).await } else { rep.insert(&k, w.author(a), w.hash(1), 1).await }
+                });
+                (if r.is_ok() { "ok" } else { "refused" },
+                 json!({"a":a,"k":key_json(&k),"ts":now,"h": if del {0} else {1},"len": if del {0} else {1}}))
+            };
+            let store = run.store.as_mut().unwrap();
+            let between = *rng.pick(&["none", "list_authors", "list_namespaces", "content_hashes", "get_exact"]);
+            match between {
+                "list_authors" => { let _ = store.list_authors().map(|it| it.count()); }
+                "list_namespaces" => { let _ = store.list_namespaces().map(|it| it.count()); }
+                "content_hashes" => { let _ = store.content_hashes().map(|it| it.count()); }
+                "get_exact" => { let _ = store.get_exact(ns, w.author(1).id(), &k, true); }
+                _ => {}
+            }
+            let st2 = w.contents(store, ns);
+            trace.emit(json!({"ev":"W","st":st_prev,"e":e,"res":res,"between":between,"st2":st2}));
+            let mut xs = vec![];
+            for a in 1..=g.n_auth {
+                for ki in 0..pool_len(g.n_keys) {
+                    let k = &key_at(ki, g.n_keys);
+                    let res = match store.get_exact(ns, w.author(a).id(), k, true) {
+                        Ok(Some(e)) => json!([w.proj_entry(&e)]),
+                        Ok(None) => json!([]),
+                        Err(_) => json!("ERR"),
+                    };
+                    xs.push(json!({"a":a,"k":key_json(k),"ie":true,"res":res}));
+                    sum.add("lookups", 1);
+                }
+            }
+            trace.emit(json!({"ev":"X","st":st2,"xs":xs}));
+            let mut logged = vec![];
+            for _ in 0..40 {
+                let q = qs[rng.below(qs.len())].clone();
+                let query = build_query(w, &q);
+                let res: Value = match store.get_many(ns, query) {
+                    Err(_) => json!("ERR"),
+                    Ok(it) => Value::Array(it.map(|e| match e { Ok(e) => w.proj_entry(&e), Err(_) => json!("ERR") }).collect()),
+                };
+                let mut q = q;
+                q["res"] = res;
+                logged.push(q);
+                sum.add("queries", 1);
+            }
+            trace.emit(json!({"ev":"Q","st":st2,"qs":logged}));
+            sum.add("afterlife_rounds", 1);
+            st_prev = st2;
+        }
         drop(run);
         if file {
             let _ = std::fs::remove_file(dir.join(format!("query-{i}.redb")));
